@@ -304,3 +304,7 @@ func AnyF64Bits(name string) float64 { return math.Float64frombits(AnyU64(name))
 // IgnorePanics: panics of the code under test end the path silently in this harness (they are the
 // subject of the C19 harnesses running the same inputs).
 func IgnorePanics() {}
+
+// FullRangeKeys: generated keys and signatures range over all values below the field width, including
+// ones with leading zero bytes (default: top byte non-zero, as for almost every real key).
+func FullRangeKeys(on bool) {}
